@@ -84,39 +84,75 @@ namespace
     }
 
     // a real pool sized with the library's node size constant serves the container (C10, last sentence)
-    template <class T>
+    template <class C>
+    long misaligned(const C& c)
+    {
+        long mis = 0;
+        for (auto& e : c)
+            if (reinterpret_cast<std::uintptr_t>(&e) % alignof(typename C::value_type) != 0)
+                ++mis;
+        return mis;
+    }
+    template <class PoolType>
+    const char* pool_name();
+    template <>
+    const char* pool_name<fm::node_pool>()
+    {
+        return "node";
+    }
+    template <>
+    const char* pool_name<fm::array_pool>()
+    {
+        return "array";
+    }
+    template <>
+    const char* pool_name<fm::small_node_pool>()
+    {
+        return "small";
+    }
+    template <class T, class PoolType = fm::node_pool>
     void pool_serves_list(int n)
     {
-        using pool_t = fm::memory_pool<fm::node_pool, raw_up>;
+        using pool_t = fm::memory_pool<PoolType, raw_up>;
         pool_t pool(fm::list_node_size<T>::value, pool_t::min_block_size(fm::list_node_size<T>::value, 16));
-        std::string r = classify(
+        long        mis = 0;
+        std::string r   = classify(
             [&]
             {
                 std::list<T, fm::std_allocator<T, pool_t>> l(pool);
                 for (int i = 0; i < n; ++i)
                     l.push_back(T(i));
+                mis += misaligned(l);
                 for (int i = 0; i < n / 2; ++i)
                     l.pop_front();
+                for (int i = 0; i < n / 2; ++i)
+                    l.push_back(T(i));
+                mis += misaligned(l);
             });
-        Ev("poolrun").s("cont", "list").u("tsize", sizeof(T)).u("talign", alignof(T)).u(
-            "constant", fm::list_node_size<T>::value).s("r", r);
+        Ev("poolrun").s("cont", "list").s("pool", pool_name<PoolType>()).u("tsize", sizeof(T)).u("talign", alignof(T)).u(
+            "constant", fm::list_node_size<T>::value).s("r", r).i("mis", mis);
     }
-    template <class T>
+    template <class T, class PoolType = fm::node_pool>
     void pool_serves_set(int n)
     {
-        using pool_t = fm::memory_pool<fm::node_pool, raw_up>;
+        using pool_t = fm::memory_pool<PoolType, raw_up>;
         pool_t pool(fm::set_node_size<T>::value, pool_t::min_block_size(fm::set_node_size<T>::value, 16));
-        std::string r = classify(
+        long        mis = 0;
+        std::string r   = classify(
             [&]
             {
                 std::set<T, std::less<T>, fm::std_allocator<T, pool_t>> s(std::less<T>(), pool);
                 for (int i = 0; i < n; ++i)
                     s.insert(T(i));
+                mis += misaligned(s);
                 for (int i = 0; i < n / 2; ++i)
                     s.erase(s.begin());
+                for (int i = 0; i < n / 2; ++i)
+                    s.insert(T(1000 + i));
+                mis += misaligned(s);
             });
-        Ev("poolrun").s("cont", "set").u("tsize", sizeof(T)).u("talign", alignof(T)).u(
-            "constant", fm::set_node_size<T>::value).s("r", r);
+        Ev("poolrun").s("cont", "set").s("pool", pool_name<PoolType>()).u("tsize", sizeof(T)).u("talign", alignof(T)).u(
+            "constant", fm::set_node_size<T>::value).s("r", r).i("mis", mis);
     }
     template <class T>
     void shared_run()
@@ -132,7 +168,7 @@ namespace
                 a.reset();
                 auto c = fm::allocate_shared<T>(pool, 3);
             });
-        Ev("poolrun").s("cont", "shared_ptr").u("tsize", sizeof(T)).u("talign", alignof(T)).u("constant", sz).s("r", r);
+        Ev("poolrun").s("cont", "shared_ptr").s("pool", "node").u("tsize", sizeof(T)).u("talign", alignof(T)).u("constant", sz).s("r", r).i("mis", 0);
     }
 
     void run_exec(const Exec& x)
@@ -158,6 +194,17 @@ namespace
             pool_serves_set<E<9, 1>>(n);
             pool_serves_set<E<16, 16>>(n);
             pool_serves_set<E<64, 8>>(n);
+            // every pool type: the chunk layout of small_node_pool and the ordered list have their own alignment rules
+            pool_serves_list<E<1, 1>, fm::small_node_pool>(n);
+            pool_serves_list<E<8, 8>, fm::small_node_pool>(n);
+            pool_serves_list<E<16, 16>, fm::small_node_pool>(n);
+            pool_serves_list<E<32, 16>, fm::small_node_pool>(n);
+            pool_serves_set<E<9, 1>, fm::small_node_pool>(n);
+            pool_serves_set<E<16, 16>, fm::small_node_pool>(n);
+            pool_serves_list<E<3, 1>, fm::array_pool>(n);
+            pool_serves_list<E<32, 16>, fm::array_pool>(n);
+            pool_serves_set<E<16, 16>, fm::array_pool>(n);
+            pool_serves_set<E<64, 8>, fm::array_pool>(n);
             shared_run<E<4, 4>>();
             shared_run<E<24, 8>>();
             shared_run<E<128, 16>>();
